@@ -35,6 +35,10 @@ pub struct Oracles {
     pub measure_shapes: bool,
     /// track header counters / file length changes (C02 non-trivial rule)
     pub track_tables: bool,
+    /// count underlying I/O calls (C06 non-trivial rule)
+    pub count_io: bool,
+    /// keep a shadow 'was ever non-zero' bitmap of the file (C08 non-trivial rule)
+    pub shadow_nonzero: bool,
 }
 
 pub struct Handle {
@@ -83,6 +87,13 @@ pub struct Engine {
     pub succ_mutations: u64,
     pub pending_refusal: bool,
     pub freed: bool,
+    pub ctl: Option<std::sync::Arc<std::sync::Mutex<crate::backend::Ctl>>>,
+    pub ever_nonzero: Vec<bool>,
+    pub ev_pred_removed: bool,
+    pub ev_removed_any: bool,
+    pub ev_slot_reused: bool,
+    pub own_writes: Vec<Vec<(u64, u64)>>,
+    pub writebacks: u64,
 }
 
 pub struct Resolved {
@@ -227,7 +238,11 @@ pub fn open_options(max_buf: Option<u32>, strict: bool) -> OpenOptions {
 
 impl Engine {
     pub fn new(version: u8, max_buf: Option<u32>, pool: Vec<String>, oracles: Oracles) -> Result<Engine, Fail> {
-        let io = Io::new();
+        let mut io = Io::new();
+        let ctl = if oracles.count_io { Some(std::sync::Arc::new(std::sync::Mutex::new(crate::backend::Ctl::default()))) } else { None };
+        if let Some(c) = &ctl {
+            io = io.with_ctl(c.clone());
+        }
         let peer = io.peer();
         let cfb = guard("create", || Self::create_lib(io, version, max_buf))?
             .map_err(|e| Fail::new("mismatch|create|fresh|Ok|Err", format!("create failed: {}", e)))?;
@@ -251,6 +266,17 @@ impl Engine {
             succ_mutations: 0,
             pending_refusal: false,
             freed: false,
+            ctl: None,
+            ever_nonzero: Vec::new(),
+            ev_pred_removed: false,
+            ev_removed_any: false,
+            ev_slot_reused: false,
+            own_writes: vec![Vec::new(); 4],
+            writebacks: 0,
+        })
+        .map(|mut e: Engine| {
+            e.ctl = ctl;
+            e
         })
     }
 
@@ -280,6 +306,13 @@ impl Engine {
             succ_mutations: 0,
             pending_refusal: false,
             freed: false,
+            ctl: None,
+            ever_nonzero: Vec::new(),
+            ev_pred_removed: false,
+            ev_removed_any: false,
+            ev_slot_reused: false,
+            own_writes: vec![Vec::new(); 4],
+            writebacks: 0,
         })
     }
 
@@ -293,7 +326,7 @@ impl Engine {
                 if version == 4 {
                     OpenOptions::new().max_buffer_size(m as usize).create_with(io)
                 } else {
-                    let peer = io.peer();
+                    let peer = io.peer_ctl();
                     let c = CompoundFile::create_with_version(v, io)?;
                     drop(c);
                     OpenOptions::new().max_buffer_size(m as usize).open_with(peer)
